@@ -149,15 +149,21 @@ class Env:
 
     # ---- hmac
     def hmac_new(self, key, msg=None, digestmod=None):
-        if not isinstance(key, (bytes, bytearray)):
+        if not isinstance(key, (bytes, bytearray, Opaque)):
             raise TypeError("key: expected bytes or bytearray, but got %r" % type(key).__name__)
         name = digestmod if isinstance(digestmod, str) else getattr(digestmod, "__name__", str(digestmod))
         name = name.replace("openssl_", "")
         self.rec("hmac", key=key, msg=msg, hash=name)
-        return _Mac(Opaque("mac", name, key, msg))
+        return _Mac(Sized("mac", hashlib.new(name).digest_size, name, key, msg))
 
     def compare_digest(self, a, b):
         r = self.rec("compare", a=a, b=b)
+        try:
+            if len(a) != len(b):
+                r["verdict"] = False          # documented: operands of different length never compare equal
+                return False
+        except TypeError:
+            pass
         if self.adv:
             r["verdict"] = self.verdict()
         else:
@@ -176,23 +182,49 @@ class Env:
     # ---- installation
     @contextlib.contextmanager
     def installed(self, extra=()):
+        """extra: list of (object, attribute, replacement) triples (see jwe_patches) or mock.patch objects"""
         global CUR
         prev = CUR
         CUR = self
-        with contextlib.ExitStack() as st:
-            st.enter_context(mock.patch.object(base64, "urlsafe_b64encode", self.urlsafe_b64encode))
-            st.enter_context(mock.patch.object(base64, "b64decode", self.b64decode))
-            st.enter_context(mock.patch.object(json, "dumps", self.dumps))
-            st.enter_context(mock.patch.object(json, "loads", self.loads))
-            st.enter_context(mock.patch.object(hmac, "new", self.hmac_new))
-            st.enter_context(mock.patch.object(hmac, "compare_digest", self.compare_digest))
-            st.enter_context(mock.patch.object(secrets, "token_bytes", self.token_bytes))
-            for p in extra:
-                st.enter_context(p)
-            try:
+        triples = [(base64, "urlsafe_b64encode", self.urlsafe_b64encode), (base64, "b64decode", self.b64decode),
+                   (json, "dumps", self.dumps), (json, "loads", self.loads), (hmac, "new", self.hmac_new),
+                   (hmac, "compare_digest", self.compare_digest), (secrets, "token_bytes", self.token_bytes)]
+        ctxs = []
+        for p in extra:
+            if isinstance(p, tuple):
+                triples.append(p)
+            else:
+                ctxs.append(p)
+        saved = []
+        try:
+            for obj, attr, new in triples:
+                if isinstance(obj, dict):
+                    saved.append((obj, attr, obj.get(attr, _MISSING)))
+                    obj[attr] = new
+                else:
+                    saved.append((obj, attr, getattr(obj, attr)))
+                    setattr(obj, attr, new)
+            with contextlib.ExitStack() as st:
+                for p in ctxs:
+                    st.enter_context(p)
                 yield self
-            finally:
-                CUR = prev
+        finally:
+            for obj, attr, old in reversed(saved):
+                if isinstance(obj, dict):
+                    if old is _MISSING:
+                        obj.pop(attr, None)
+                    else:
+                        obj[attr] = old
+                else:
+                    setattr(obj, attr, old)
+            CUR = prev
+
+
+def mac_tag(name, key, msg):
+    return Sized("mac", hashlib.new(name).digest_size, name, key, msg)
+
+
+_MISSING = object()
 
 
 class _Mac:
@@ -213,7 +245,7 @@ def patch_joserfc_names(mapping):
             continue
         for name, (orig, fake) in mapping.items():
             if getattr(mod, name, None) is orig:
-                out.append(mock.patch.object(mod, name, fake))
+                out.append((mod, name, fake))
     return out
 
 
@@ -476,3 +508,370 @@ def fake_key(kind, kid=None, private=False, params=None):
     if private:
         d["d"] = "d-" + name
     return OKPKey(native, {**d, **({"kid": kid} if kid else {}), **params})
+
+
+# ------------------------------------------------------------------ JWE leaves
+from cryptography.exceptions import InvalidTag
+from cryptography.hazmat.primitives.keywrap import InvalidUnwrap
+
+
+class Sized(Opaque):
+    """opaque octets of KNOWN length (derived keys): len() works, slicing keeps track of the cut."""
+    def __init__(self, kind, n, *parts, cut=None):
+        super().__init__(kind, *parts, cut=cut)
+        self.n = n
+
+    def __eq__(self, o):
+        return isinstance(o, Sized) and self.n == o.n and Opaque.__eq__(self, o)
+
+    __hash__ = Opaque.__hash__
+
+    def __len__(self):
+        return self.n
+
+    def __getitem__(self, s):
+        if isinstance(s, slice):
+            a, b, _ = s.indices(self.n)
+            return Sized(self.kind, max(0, b - a), *self.parts, cut=(self.cut, a, b))
+        raise TypeError("opaque octets cannot be indexed")
+
+
+def _blen(x):
+    return len(x)
+
+
+def _is_octets(x):
+    return isinstance(x, (bytes, bytearray, Sized))
+
+
+class FakeAES:
+    block_size = 128
+
+    def __init__(self, key):
+        if not _is_octets(key):
+            raise TypeError("key must be bytes-like")
+        if _blen(key) not in (16, 24, 32):
+            raise ValueError("Invalid key size (%d) for AES." % (_blen(key) * 8))
+        self.key = key
+
+
+class FakeGCM:
+    def __init__(self, initialization_vector, tag=None, min_tag_length=16):
+        if not isinstance(initialization_vector, (bytes, bytearray)):
+            raise TypeError("initialization_vector must be bytes-like")
+        if not 8 <= len(initialization_vector) <= 128:
+            raise ValueError("initialization_vector must be between 8 and 128 bytes (64 and 1024 bits).")
+        if tag is not None:
+            if not isinstance(tag, (bytes, bytearray)):
+                raise TypeError("tag must be bytes or None")
+            if len(tag) < min_tag_length:
+                raise ValueError("Authentication tag must be %d bytes or longer." % min_tag_length)
+        self.iv, self.tag = initialization_vector, tag
+
+
+class FakeCBC:
+    def __init__(self, initialization_vector):
+        if not isinstance(initialization_vector, (bytes, bytearray)):
+            raise TypeError("initialization_vector must be bytes-like")
+        self.iv = initialization_vector
+
+
+class FakeCipher:
+    def __init__(self, algorithm, mode, backend=None):
+        if isinstance(mode, FakeCBC) and len(mode.iv) != 16:
+            raise ValueError("Invalid IV size (%d) for CBC." % len(mode.iv))
+        self.alg, self.mode = algorithm, mode
+
+    def encryptor(self):
+        return _CipherCtx(self, True)
+
+    def decryptor(self):
+        return _CipherCtx(self, False)
+
+
+class _CipherCtx:
+    def __init__(self, c, enc):
+        self.c, self.enc, self.aad, self.data, self.tag = c, enc, None, b"", None
+
+    def authenticate_additional_data(self, a):
+        self.aad = a
+
+    def update(self, d):
+        self.data = d
+        return b""
+
+    def finalize(self):
+        env = CUR
+        gcm = isinstance(self.c.mode, FakeGCM)
+        kind = "gcm" if gcm else "cbc"
+        if self.enc:
+            i = len(env.of(kind + "_encrypt"))
+            ct = (b"GC%d" if gcm else b"CC%d") % i
+            r = env.rec(kind + "_encrypt", key=self.c.alg.key, iv=self.c.mode.iv, aad=self.aad, pt=self.data, ct=ct)
+            if gcm:
+                self.tag = b"GCMTAG-16-OCTET%d" % i
+                r["tag"] = self.tag
+            return ct
+        r = env.rec(kind + "_decrypt", key=self.c.alg.key, iv=self.c.mode.iv, aad=self.aad, ct=self.data,
+                    tag=getattr(self.c.mode, "tag", None))
+        if gcm:
+            if env.adv:
+                r["verdict"] = env.verdict()
+                if not r["verdict"]:
+                    raise InvalidTag()
+                r["out"] = env.next_cek() if self.aad is None else env.plaintext     # no AAD = AES-GCM key wrap
+                return r["out"]
+            for e in env.of("gcm_encrypt"):
+                if e["key"] == r["key"] and e["iv"] == r["iv"] and e["aad"] == r["aad"] and e["ct"] == r["ct"] and e["tag"] == r["tag"]:
+                    r["verdict"] = True
+                    return e["pt"]
+            r["verdict"] = False
+            raise InvalidTag()
+        # CBC has no authentication of its own
+        if env.adv:
+            r["out"] = env.plaintext
+            return r["out"]
+        for e in env.of("cbc_encrypt"):
+            if e["key"] == r["key"] and e["iv"] == r["iv"] and e["ct"] == r["ct"]:
+                return e["pt"]
+        return b"garbage-from-wrong-key"
+
+
+class FakePKCS7:
+    def __init__(self, block_size):
+        self.block_size = block_size
+
+    def padder(self):
+        return _Pad()
+
+    def unpadder(self):
+        return _Pad()
+
+
+class _Pad:
+    def update(self, d):
+        self.d = d
+        return d
+
+    def finalize(self):
+        return b""
+
+
+def fake_aes_key_wrap(wrapping_key, key_to_wrap, backend=None):
+    env = CUR
+    if _blen(wrapping_key) not in (16, 24, 32):
+        raise ValueError("The wrapping key must be a valid AES key length")
+    if _blen(key_to_wrap) < 16:
+        raise ValueError("The key to wrap must be at least 16 bytes")
+    if _blen(key_to_wrap) % 8:
+        raise ValueError("The key to wrap must be a multiple of 8 bytes")
+    i = len(env.of("wrap"))
+    out = b"WRAPPED-KEY-%02d" % i
+    env.rec("wrap", key=wrapping_key, cek=key_to_wrap, out=out)
+    return out
+
+
+def fake_aes_key_unwrap(wrapping_key, wrapped_key, backend=None):
+    env = CUR
+    if _blen(wrapping_key) not in (16, 24, 32):
+        raise ValueError("The wrapping key must be a valid AES key length")
+    r = env.rec("unwrap", key=wrapping_key, ek=wrapped_key)
+    if _blen(wrapped_key) < 24 or _blen(wrapped_key) % 8:
+        r["verdict"] = False
+        raise InvalidUnwrap("Must be at least 24 bytes / a multiple of 8 bytes")
+    if env.adv:
+        r["verdict"] = env.verdict()
+        if not r["verdict"]:
+            raise InvalidUnwrap()
+        r["out"] = env.next_cek()
+        return r["out"]
+    for w in env.of("wrap"):
+        if w["key"] == wrapping_key and w["out"] == wrapped_key:
+            r["verdict"] = True
+            return w["cek"]
+    r["verdict"] = False
+    raise InvalidUnwrap()
+
+
+def _next_cek(self):
+    if not self.ceks:
+        raise HarnessError("not enough scripted CEKs")
+    return self.ceks.pop(0)
+
+
+Env.next_cek = _next_cek
+Env.ceks = ()
+Env.plaintext = b"decrypted-plaintext"
+
+
+class FakeConcatKDFHash:
+    def __init__(self, algorithm, length, otherinfo, backend=None):
+        if not isinstance(length, int):
+            raise TypeError("length must be an int")
+        if length > 137438953440 // 8:
+            raise ValueError("Cannot derive keys larger than 137438953440 bits.")
+        self.h, self.length, self.otherinfo = algorithm.name, length, otherinfo
+
+    def derive(self, z):
+        out = Sized("concatkdf", self.length, self.h, self.length, self.otherinfo, z)
+        CUR.rec("concatkdf", hash=self.h, length=self.length, otherinfo=self.otherinfo, z=z, out=out)
+        return out
+
+
+class FakePBKDF2HMAC:
+    def __init__(self, algorithm, length, salt, iterations, backend=None):
+        if not isinstance(iterations, int):
+            raise TypeError("%r object cannot be interpreted as an integer" % type(iterations).__name__)
+        if iterations < 0:
+            raise OverflowError("can't convert negative int to unsigned")
+        if iterations >= 2 ** 64:
+            raise OverflowError("int too big to convert")
+        if iterations < 1:
+            raise ValueError("iterations must be greater than or equal to 1.")
+        self.h, self.length, self.salt, self.iterations = algorithm.name, length, salt, iterations
+
+    def derive(self, key):
+        out = Sized("pbkdf2", self.length, self.h, self.length, self.salt, self.iterations, key)
+        CUR.rec("pbkdf2", hash=self.h, length=self.length, salt=self.salt, iterations=self.iterations, key=key, out=out)
+        return out
+
+
+class FakeChaCha:
+    """stand-in for the Crypto.Cipher.ChaCha20_Poly1305 module"""
+    @staticmethod
+    def new(key=None, nonce=None):
+        if _blen(key) != 32:
+            raise ValueError("Key must be 32 bytes long")
+        if len(nonce) not in (8, 12, 24):
+            raise ValueError("Nonce must be 8, 12 or 24 bytes long")
+        return _ChaCtx(key, nonce)
+
+
+class _ChaCtx:
+    def __init__(self, key, nonce):
+        self.key, self.nonce, self.aad = key, nonce, None
+
+    def update(self, aad):
+        self.aad = aad
+
+    def encrypt_and_digest(self, pt):
+        env = CUR
+        i = len(env.of("chacha_encrypt"))
+        ct, tag = b"XC%d" % i, b"CHACHATAG-16-OCT%d" % i
+        env.rec("chacha_encrypt", key=self.key, iv=self.nonce, aad=self.aad, pt=pt, ct=ct, tag=tag)
+        return ct, tag
+
+    def decrypt_and_verify(self, ct, tag):
+        env = CUR
+        r = env.rec("chacha_decrypt", key=self.key, iv=self.nonce, aad=self.aad, ct=ct, tag=tag)
+        if env.adv:
+            r["verdict"] = env.verdict()
+            if not r["verdict"]:
+                raise ValueError("MAC check failed")
+            r["out"] = env.plaintext
+            return r["out"]
+        for e in env.of("chacha_encrypt"):
+            if all(e[k] == r[k] for k in ("key", "iv", "aad", "ct", "tag")):
+                r["verdict"] = True
+                return e["pt"]
+        r["verdict"] = False
+        raise ValueError("MAC check failed")
+
+
+class FakeZlib:
+    """ideal DEFLATE: compress(s) = 2-octet zlib header || token || 4-octet checksum; decompressobj understands the tokens"""
+    @staticmethod
+    def compress(s, *a, **k):
+        env = CUR
+        i = len(env.of("zcompress"))
+        body = b"DEFLATED%d" % i
+        env.rec("zcompress", data=s, body=body)
+        return b"\x78\x9c" + body + b"ADLR"
+
+    @staticmethod
+    def decompressobj(wbits=15, *a):
+        return _ZD(wbits)
+
+
+class _ZD:
+    def __init__(self, wbits):
+        self.wbits, self.unconsumed_tail, self.eof, self.unused_data = wbits, b"", False, b""
+
+    def decompress(self, data, max_length=0):
+        env = CUR
+        r = env.rec("zdecompress", data=data, max_length=max_length, wbits=self.wbits, after=len(env.calls))
+        for c in env.of("zcompress"):
+            if c["body"] == data or b"\x78\x9c" + c["body"] + b"ADLR" == data:
+                self.eof = True
+                return c["data"]
+        if env.adv:
+            self.eof = True
+            r["out"] = b"inflated:" + (data if isinstance(data, bytes) else b"?")
+            return r["out"]
+        raise zlib.error("Error -3 while decompressing data: invalid stored block lengths")
+
+    def flush(self, length=None):
+        return b""
+
+
+def jwe_patches():
+    """mock.patch objects for every pyca / PyCryptodome / zlib leaf used by the JWE code (call inside Env.installed(extra=...))."""
+    from cryptography.hazmat.primitives.keywrap import aes_key_wrap, aes_key_unwrap
+    from cryptography.hazmat.primitives.ciphers import Cipher
+    from cryptography.hazmat.primitives.ciphers.algorithms import AES
+    from cryptography.hazmat.primitives.ciphers.modes import GCM, CBC
+    from cryptography.hazmat.primitives.padding import PKCS7
+    from cryptography.hazmat.primitives.kdf.pbkdf2 import PBKDF2HMAC
+    from cryptography.hazmat.primitives.kdf.concatkdf import ConcatKDFHash
+    import joserfc.jwe  # noqa  (make sure the modules are loaded)
+    mapping = {"aes_key_wrap": (aes_key_wrap, fake_aes_key_wrap), "aes_key_unwrap": (aes_key_unwrap, fake_aes_key_unwrap),
+               "Cipher": (Cipher, FakeCipher), "AES": (AES, FakeAES), "GCM": (GCM, FakeGCM), "CBC": (CBC, FakeCBC),
+               "PKCS7": (PKCS7, FakePKCS7), "PBKDF2HMAC": (PBKDF2HMAC, FakePBKDF2HMAC), "ConcatKDFHash": (ConcatKDFHash, FakeConcatKDFHash)}
+    try:
+        import joserfc.drafts.jwe_chacha20  # noqa
+        from Crypto.Cipher import ChaCha20_Poly1305
+        mapping["ChaCha20_Poly1305"] = (ChaCha20_Poly1305, FakeChaCha)
+    except ImportError:
+        pass
+    out = patch_joserfc_names(mapping)
+    out.append((zlib, "compress", FakeZlib.compress))
+    out.append((zlib, "decompressobj", FakeZlib.decompressobj))
+    return out
+
+
+class FakeECNumbers:
+    """stand-in for EllipticCurvePublicNumbers in joserfc.rfc7518.ec_key: .public_key() yields a fake point or ValueError"""
+    def __init__(self, x, y, curve):
+        self.x, self.y, self.curve = x, y, curve
+
+    def public_key(self, backend=None):
+        env = CUR
+        name = {"secp256r1": "P-256", "secp384r1": "P-384", "secp521r1": "P-521", "secp256k1": "secp256k1"}[self.curve.name]
+        r = env.rec("ec_point", x=self.x, y=self.y, crv=name)
+        if getattr(env, "epk_invalid", False):
+            raise ValueError("Invalid EC key. Point is not on the curve specified.")
+        return FakeECPublic("epk", name)
+
+
+def ec_import_patches():
+    import joserfc.rfc7518.ec_key as EK
+    from cryptography.hazmat.primitives.asymmetric.ec import EllipticCurvePublicNumbers
+    out = patch_joserfc_names({"EllipticCurvePublicNumbers": (EllipticCurvePublicNumbers, FakeECNumbers)})
+    return out
+
+
+def okp_import_patches():
+    import joserfc.rfc8037.okp_key as OK
+
+    def mk(pub_cls):
+        class Loader:
+            @staticmethod
+            def from_public_bytes(data):
+                env = CUR
+                env.rec("okp_point", x=data)
+                if getattr(env, "epk_invalid", False):
+                    raise ValueError("An X25519 public key is 32 bytes long")
+                return pub_cls("epk")
+        return Loader
+    return [(OK.PUBLIC_KEYS_MAP, "X25519", mk(FakeX25519Public)), (OK.PUBLIC_KEYS_MAP, "X448", mk(FakeX448Public)),
+            (OK.PUBLIC_KEYS_MAP, "Ed25519", mk(FakeEd25519Public)), (OK.PUBLIC_KEYS_MAP, "Ed448", mk(FakeEd448Public))]
